@@ -444,8 +444,17 @@ pub fn run_history(h: &History, scope: Scope, obs: &Obs) -> CheckResult {
             continue;
         }
         if scope.queue_and_esr {
-            let q: Vec<Item> = dev.queue_snapshot().iter().map(item_of).collect();
-            let mq: Vec<Item> = m.queue.iter().cloned().collect();
+            // very long queues (tens of thousands of items): lengths and the newest items after
+            // every step, the whole queue every 4096 steps and at the end (keeps the run linear)
+            let long = m.queue.len() > 2048 && dev.queue_len() > 2048 && si % 4096 != 0 && si + 1 != h.steps.len();
+            let (q, mq): (Vec<Item>, Vec<Item>) = if long {
+                if dev.queue_len() != m.queue.len() {
+                    return Err(Failure::new("queue-state", format!("step {si} {txt:?}: device queue holds {} items, model {}", dev.queue_len(), m.queue.len())));
+                }
+                (dev.queue_tail(8).iter().map(item_of).collect(), m.queue.iter().skip(m.queue.len() - 8).cloned().collect())
+            } else {
+                (dev.queue_snapshot().iter().map(item_of).collect(), m.queue.iter().cloned().collect())
+            };
             if q != mq {
                 let sig = if step.units.iter().any(|(u, _)| matches!(u, U::Cls)) && !q.is_empty() && mq.is_empty() { "cls-leaves-queue" } else { "queue-state" };
                 return Err(Failure::new(sig, format!("step {si} {txt:?}: device queue {:?}, model {:?}", q.iter().map(|i| i.code).collect::<Vec<_>>(), mq.iter().map(|i| i.code).collect::<Vec<_>>())));
@@ -467,7 +476,7 @@ pub fn run_history(h: &History, scope: Scope, obs: &Obs) -> CheckResult {
             if (dev.esr, dev.ese, dev.sre) != (m.esr, m.ese, m.sre) {
                 return Err(Failure::new("common-register-state", format!("step {si} {txt:?}: device ESR/ESE/SRE = {:#04x}/{:#04x}/{:#04x}, model {:#04x}/{:#04x}/{:#04x}", dev.esr, dev.ese, dev.sre, m.esr, m.ese, m.sre)));
             }
-            let dq = dev.queue_snapshot().len();
+            let dq = dev.queue_len();
             if (dq == 0) != m.queue.is_empty() {
                 let sig = if step.units.iter().any(|(u, _)| matches!(u, U::Cls)) { "cls-leaves-queue" } else { "queue-state" };
                 return Err(Failure::new(sig, format!("step {si} {txt:?}: device queue holds {dq} items, model {}", m.queue.len())));
@@ -593,4 +602,41 @@ pub fn long_queue_history() -> impl Strategy<Value = History> {
             }
             History { bounded: false, steps }
         })
+}
+
+/// A compact description of a history that builds a queue of `n` unread items
+/// (beyond 16-bit counts) with count / status-byte reads at the 2^8, 2^16 (and
+/// 2^17) marks and a partial drain at the end; expanded by `huge_queue`.
+#[derive(Clone, Copy, Debug, PartialEq, Eq, Hash, Serialize, Deserialize)]
+pub struct Huge {
+    pub n: u32,
+    pub variant: u8,
+}
+
+pub fn huge_queue(h: &Huge) -> History {
+    let one = |u: U| Step { events: vec![], mav: false, tst: None, units: vec![(u, 0)] };
+    let mut steps: Vec<Step> = vec![Step { events: vec![], mav: false, tst: None, units: vec![(U::Sre(4), 0), (U::Ese(255), 0)] }];
+    for i in 0..h.n {
+        steps.push(one(match (i + h.variant as u32) % 3 {
+            0 => U::Fail(ErrSpec { code: -100 - ((i % 4) as i16) * 100, custom: false, extended: false }),
+            1 => U::Opc,
+            _ => U::Bad(Bad::UndefinedHeader),
+        }));
+        let c = i + 1;
+        if matches!(c, 255 | 256 | 257 | 65534..=65538 | 131070..=131074) || c == h.n {
+            steps.push(Step { events: vec![], mav: c & 1 == 1, tst: None, units: vec![(U::ErrCount, 0), (U::StbQ, 0)] });
+        }
+    }
+    for u in [U::ErrNext, U::ErrNext, U::ErrCount, U::StbQ, U::EsrQ, U::ErrNext, U::ErrCount] {
+        steps.push(one(u));
+    }
+    History { bounded: false, steps }
+}
+
+pub fn huge_cases(thorough: bool) -> Vec<Huge> {
+    if thorough {
+        vec![Huge { n: 65540, variant: 0 }, Huge { n: 65540, variant: 1 }, Huge { n: 70000, variant: 2 }, Huge { n: 131080, variant: 0 }]
+    } else {
+        vec![Huge { n: 65540, variant: 0 }, Huge { n: 66000, variant: 1 }]
+    }
 }
